@@ -18,6 +18,9 @@ CHECKS = {
  "C05": dict(cat="exploration", ref="4 (C05)", technique="generated concurrent programs under generated forced schedules (hook points) and natural schedules; recorded histories decided by a complete per-key linearizability search",
    text="2-4 client threads run generated put/delete/batch/get/flush programs on a 512-1500 byte memtable while 1-4 generated directives hold a chosen thread (client or background) at a chosen hook point until the others finish; every operation is stamped with a global counter and each key's history, closed by a quiescent final read, is checked by a complete Wing-Gong/Lowe search (self-tested before each run).",
    note="Windows that do not cross a hook point are only reached by natural schedules. Group-commit error outcomes under faults are covered by C08 (single client) only; per-writer outcomes under faults with several writers are not explored."),
+ "C06": dict(cat="exploration", ref="4 (C06)", technique="generated writer/reader programs under forced schedules holding a writer inside apply; invariant: each batch group is uniform at every read point",
+   text="Writers apply whole-group batches (also batches writing each key twice, and whole-group deletes) while generated directives hold them before the WAL append, after it, between memtable insertions and after the last insertion; readers keep taking snapshots, iterators and plain gets meanwhile. Every sequence-consistent read must see each group uniform (all keys the same batch, or all absent), counters never go backwards for a reader, and no read may return a value that the same batch overwrites.",
+   note="Holds are bounded by a 15-90 ms timeout (queued writers cannot finish while the head writer is held); the timeout affects coverage only."),
  "C07": dict(cat="exploration", ref="2 (C07)", technique="metamorphic property testing (dump before == dump after flush/compaction) plus model comparison",
    text="Metamorphic relation: the full contents (scan + point gets at the latest state and at every live snapshot) taken immediately before a flush / compact_range / background-compaction wait / seek-compaction trigger must be identical afterwards, and equal to the model.",
    note="Trusted: MemFs, model; quiescence is observed through the verif_wait_idle hook."),
